@@ -89,7 +89,7 @@ func loadProgram(cfg LoadConfig) (*Program, error) {
 		env = append(env, "GOARCH="+cfg.GOARCH)
 	}
 	pc := &packages.Config{
-		Mode:  packages.LoadAllSyntax,
+		Mode:  packages.LoadAllSyntax | packages.NeedModule,
 		Dir:   cfg.Dir,
 		Env:   env,
 		Tests: false,
